@@ -28,9 +28,36 @@ class _TypeFixed:
             return None
         return s
 
+    def tv(self, e):
+        """three-valued: 0 / non-zero constant / None, short-circuiting through && || ! ?: with unknown operands"""
+        from valib.core import strip, kids
+        e = strip(e, casts=True)
+        v = self.ce.try_eval(e)
+        if v is not None:
+            return v
+        k = e.get("kind")
+        if k == "BinaryOperator" and e.get("opcode") in ("&&", "||"):
+            a, b = self.tv(kids(e)[0]), self.tv(kids(e)[1])
+            if e["opcode"] == "&&":
+                if a == 0 or b == 0:
+                    return 0
+                return 1 if (a is not None and b is not None) else None
+            if (a is not None and a != 0) or (b is not None and b != 0):
+                return 1
+            return 0 if (a == 0 and b == 0) else None
+        if k == "UnaryOperator" and e.get("opcode") == "!":
+            a = self.tv(kids(e)[0])
+            return None if a is None else int(a == 0)
+        if k == "ConditionalOperator":
+            c = self.tv(kids(e)[0])
+            if c is None:
+                a, b = self.tv(kids(e)[1]), self.tv(kids(e)[2])
+                return a if a == b else None
+            return self.tv(kids(e)[1] if c else kids(e)[2])
+        return None
+
     def eval_ret(self, e, s):
-        from valib.core import strip
-        self.rets.append((e, self.ce.try_eval(strip(e, casts=True))))
+        self.rets.append((e, self.tv(e)))
         return s
 
     def ret(self, n, s): pass
